@@ -123,7 +123,18 @@ type World struct {
 	LastClass string
 	// pending (async) bookkeeping is not needed by the model: reads see writes at once
 	closed bool
+	// Two: the database holds a second collection (type Wide2) created from the SAME Schema
+	// value as the first one; M2 is its reference (uuid -> object), Order2 its live objects
+	// oldest first, Dead2 the deleted ones
+	Two     bool
+	M2      map[string]*Wide2
+	Order2  []string
+	Dead2   map[string]bool
+	serial2 int
 }
+
+// worldTwo makes the worlds built from now on hold a second collection (set by drivers).
+var worldTwo bool
 
 const dbRoot = "/db"
 
@@ -138,6 +149,9 @@ func NewWorld(cfg Cfg, prop string) *World {
 	vfs.Cur = w.FS
 	w.FS.LogOn = true
 	setGlobals(cfg)
+	if worldTwo && cfg.Index == 0 {
+		w.Two, w.M2, w.Dead2 = true, map[string]*Wide2{}, map[string]bool{}
+	}
 	w.open()
 	return w
 }
@@ -146,8 +160,15 @@ func (w *World) open() {
 	vfs.Cur = w.FS
 	w.DB = sod.Open(w.Root)
 	w.closed = false
-	if err := w.DB.Create(&Rec{}, w.Cfg.Schema(&Rec{})); err != nil {
+	sch := w.Cfg.Schema(&Rec{})
+	if err := w.DB.Create(&Rec{}, sch); err != nil {
 		w.fail("create", fmt.Sprintf("Create failed on a healthy database: %v", err))
+	}
+	if w.Two {
+		// the very same Schema value, as an application with one schema for all its types does
+		if err := w.DB.Create(&Wide2{}, sch); err != nil {
+			w.fail("create2", fmt.Sprintf("Create of a second collection failed on a healthy database: %v", err))
+		}
 	}
 }
 
@@ -190,6 +211,10 @@ func (w *World) drop(uuid string) {
 // Applicable tells whether op makes sense in the current world (slot exists...).
 func (w *World) Applicable(op Op) bool {
 	switch op.Op {
+	case "ins2", "delall2":
+		return w.Two
+	case "dup2", "upd2", "del2":
+		return w.Two && len(w.Order2) > 0
 	case "flush", "flushc":
 		// Flush writes the object it is given: only the current version of a stored object is
 		// passed (flushing anything else is outside every statement)
@@ -243,6 +268,54 @@ func (w *World) Apply(op Op) {
 			}
 			w.accept(r.UUID(), r, slot < 0)
 		}
+	case "ins2":
+		w.serial2++
+		o := &Wide2{A: op.V, K: fmt.Sprintf("k%d", w.serial2)}
+		if err := w.DB.InsertOrUpdate(o); err != nil {
+			w.fail("ins2-err", fmt.Sprintf("insert into the second collection returned %v", err))
+			return
+		}
+		w.M2[o.UUID()] = o
+		w.Order2 = append(w.Order2, o.UUID())
+	case "dup2":
+		// a new object re-using the unique key of the oldest live object of the second collection
+		w.serial2++
+		o := &Wide2{A: op.V, K: w.M2[w.Order2[0]].K}
+		if err := w.DB.InsertOrUpdate(o); !sod.IsUnique(err) {
+			w.fail("dup2-accepted", fmt.Sprintf("a duplicate unique key in the second collection was answered with %v", err))
+		}
+	case "upd2":
+		u := w.Order2[0]
+		w.serial2++
+		o := &Wide2{A: op.V, K: fmt.Sprintf("k%d", w.serial2)}
+		o.Initialize(u)
+		if err := w.DB.InsertOrUpdate(o); err != nil {
+			w.fail("upd2-err", fmt.Sprintf("update in the second collection returned %v", err))
+			return
+		}
+		w.M2[u] = o
+		w.Order2 = append(w.Order2[1:], u)
+	case "del2":
+		u := w.Order2[0]
+		o := &Wide2{}
+		o.Initialize(u)
+		if err := w.DB.Delete(o); err != nil {
+			w.fail("del2-err", fmt.Sprintf("delete in the second collection returned %v", err))
+			return
+		}
+		delete(w.M2, u)
+		w.Dead2[u] = true
+		w.Order2 = w.Order2[1:]
+	case "delall2":
+		if err := w.DB.DeleteAll(&Wide2{}); err != nil {
+			w.fail("delall2-err", fmt.Sprintf("DeleteAll of the second collection returned %v", err))
+			return
+		}
+		for u := range w.M2 {
+			w.Dead2[u] = true
+		}
+		w.M2 = map[string]*Wide2{}
+		w.Order2 = nil
 	case "insnan", "updnan":
 		// a valid, conflict-free object that cannot be serialised: refused, nothing changes
 		slot := -1
@@ -751,6 +824,54 @@ func (w *World) SweepBasic() {
 		w.checkAbsent(u, "deleted")
 	}
 	w.checkAbsent(NeverUUID, "never-stored")
+	if w.Two {
+		w.sweepSecond()
+	}
+}
+
+// sweepSecond compares the second collection with its reference.
+func (w *World) sweepSecond() {
+	if n, err := w.DB.Count(&Wide2{}); err != nil || n != len(w.M2) {
+		w.fail("second|count", fmt.Sprintf("second collection: Count = (%d, %v), expected %d", n, err, len(w.M2)))
+		return
+	}
+	all, err := w.DB.All(&Wide2{})
+	if err != nil || len(all) != len(w.M2) {
+		w.fail("second|all", fmt.Sprintf("second collection: All returns %d objects (%v), expected %d", len(all), err, len(w.M2)))
+		return
+	}
+	for _, o := range all {
+		g := o.(*Wide2)
+		m, ok := w.M2[g.UUID()]
+		if !ok || m.A != g.A || m.K != g.K {
+			w.fail("second|all-value", "second collection: All returns an object that is not the accepted version")
+			return
+		}
+	}
+	for u, m := range w.M2 {
+		g, err := w.DB.GetByUUID(&Wide2{}, u)
+		if err != nil || g.(*Wide2).A != m.A || g.(*Wide2).K != m.K {
+			w.fail("second|get", fmt.Sprintf("second collection: Get of a stored object returns (%v, %v)", g, err))
+			return
+		}
+		if s := w.DB.Search(&Wide2{}, "K", "=", m.K); s.Err() != nil || s.Len() != 1 {
+			w.fail("second|search", fmt.Sprintf("second collection: Search(K = own key) finds %d (%v)", s.Len(), s.Err()))
+			return
+		}
+	}
+	for u := range w.Dead2 {
+		if _, err := w.DB.GetByUUID(&Wide2{}, u); err == nil {
+			w.fail("second|deleted-found", "second collection: a deleted object is found")
+			return
+		}
+	}
+	// the ids of one collection mean nothing in the other
+	for u := range w.M2 {
+		if _, err := w.DB.GetByUUID(&Rec{}, u); err == nil {
+			w.fail("second|crosstalk", "an object of the second collection is found through the first one")
+			return
+		}
+	}
 }
 
 // DirCheck: after a commit point the collection directory holds exactly one file per model object.
